@@ -6,8 +6,9 @@
     creator's `executed` task), C15_loader_after_deps, C15_created_at_most_once / C15_report_means_finished (once-only
     half of created_obey), C15_created_obey / C15_created_start_after_deps (ordering half: obeyOK over the table of
     the Task objects the nodes hold) and C15_created_obey_table (over TaskControl.tasks, unless a started task was
-    re-defined), C15_target / C15_target_producer_first (structural core of the target rule; hypothesis rxB).
-    "Exactly the closure" and liveness of the target rule stay with the monitor targetOK.
+    re-defined), C15_created_utd (up-to-date rule), C15_target / C15_target_producer_first (structural core of the
+    target rule; hypothesis rxB), C15_nodes_in_closure / C15_started_in_closure ("exactly": nothing outside the
+    closure of the selection gets a node / is started).  Liveness of the target rule stays with the monitor targetOK.
 (K) generated dodo namespaces: static tasks + `create_after` creators (executed / creates=[..] / target_regex,
     sub-task yielding creators, explicit-basename creators, creators triggered by another creator's task), selections
     by task, sub-task and target (also --auto-delayed-regex), serial / MThreadRunner under the deterministic scheduler
@@ -75,14 +76,16 @@ META = {
                    'every case): the not-found error is raised only while nobody registered the word as a target and '
                    'its regex group is exhausted; a loaded regex placeholder has the producer of its word among its '
                    'task_deps (so it starts after the producer\'s good report) unless other loaders of the group are '
-                   'still to be tried.  The up-to-date rule (utdOK), "nothing outside the closure of the selection is '
-                   'executed" and "the producer is eventually processed" (targetOK) are monitors on every '
-                   'implementation trace.  '
+                   'still to be tried.  C15_created_utd (utdOK as a theorem; get_status is an oracle of the model).  '
+                   'C15_nodes_in_closure / C15_started_in_closure: every task that gets a node / is started is '
+                   'reachable from the selection through task_dep edges of the node-held Task objects or of the '
+                   'initial table.  "The producer is eventually processed" (liveness half of targetOK) is a monitor '
+                   'on every implementation trace.  '
                    'The model is tied to doit on every run by trace acceptance.'),
     'level_note': ('created_obey is proved for the node-held Task objects; a decidable input condition that excludes '
                    're-definition of an already started task (self.tasks[nt.name] = nt has no guard) is not proved, '
-                   'C15_created_obey_table carries it as a state hypothesis.  Target: exactness / liveness are '
-                   'monitor-only.  Regex matching and the creators are '
+                   'C15_created_obey_table carries it as a state hypothesis.  Target: liveness is monitor-only.  '
+                   'Regex matching and the creators are '
                    'oracles (computed by the harness with Python re / from the generated yields).  Parallel runners '
                    'are over-approximated (no worker accounting; that is C02).  Both findings made by this check '
                    '(F-C15a subtask-then-regex-target, F-C15b creates-not-yielded) are repaired in /repo; '
